@@ -1,6 +1,7 @@
 """C13 — configurations of one schema share no state and never alter the schema."""
 import copy
 import json
+import os
 
 from core import Result, stable, guard
 
@@ -795,6 +796,50 @@ def rejection_rendering_stream(ctx, res):
                         dict(case, diff=d, schemas_before=n_schemas, schemas_after=len(all_schemas(s))))
 
 
+def include_sharing_stream(ctx, res):
+    """two configurations of one schema that each load a document naming the SAME include file, whose values land in positions no
+    typed field copies (untyped lists and dicts, AnyField, dynamic fields; at the root and in a nested scope): editing what one of them
+    holds changes neither the other, nor a configuration that loads the file afterwards"""
+    import cincoconfig as cc
+    tmp = ctx.tmpdir()
+    for fmt in ("json", "yaml", "pickle"):
+        s = cc.Schema(dynamic=True)
+        s.include = cc.IncludeField(startdir=tmp)
+        s.tags = cc.ListField(default=lambda: [])
+        s.opts = cc.DictField(default=lambda: {})
+        s.anything = cc.Field()
+        s.db.include = cc.IncludeField(startdir=tmp)
+        s.db.replicas = cc.ListField(default=lambda: [])
+        F_ = cc.ConfigFormat.get(fmt)
+        with open(os.path.join(tmp, "shared." + fmt), "wb") as fh:
+            fh.write(F_.dumps(None, {"tags": ["base"], "opts": {"retries": [1, 2]}, "anything": {"k": [0]}, "extra": ["e"]}))
+        with open(os.path.join(tmp, "shared-db." + fmt), "wb") as fh:
+            fh.write(F_.dumps(None, {"replicas": ["r1"]}))
+        doc = F_.dumps(None, {"include": "shared." + fmt, "db": {"include": "shared-db." + fmt}})
+        case = {"stream": "include-sharing", "fmt": fmt}
+        res.case(stable(case), kind="include-sharing")
+        try:
+            a, b = s(), s()
+            a.loads(doc, format=fmt)
+            b.loads(doc, format=fmt)
+            first = tree_of(b)
+            a.tags.append("only-a")
+            a.opts["retries"].append(3)
+            a.anything["k"].append(9)
+            a.extra.append("only-a")
+            a.db.replicas.append("only-a-replica")
+            c = s()
+            c.loads(doc, format=fmt)
+        except Exception as e:  # noqa
+            res.violate("C13:other-config-changed:include", "loading two configurations from documents that include the same file raised %s" % type(e).__name__, dict(case, error=str(e)[:120]))
+            continue
+        if tree_of(b) != first:
+            res.violate("C13:other-config-changed:include", "editing values that came from an included file through one configuration changed another configuration that "
+                        "included the same file", dict(case, other=tree_of(b)))
+        if tree_of(c) != first:
+            res.violate("C13:fresh-build-differs:include", "a configuration that loads the same document afterwards does not hold the file's content", dict(case, later=tree_of(c)))
+
+
 def odd_default_stream(ctx, res):
     """declared defaults that are mutable below a first level that is not a list / dict literal: a tuple holding lists, a dict default
     given as a list of pairs, a list default holding ready-made configuration objects. Enumerated: two configurations, every level of
@@ -949,6 +994,7 @@ def run(ctx, n_quick=250, n_thorough=8000):
     guard(res, "C13", transfer_stream, ctx, res, ctx.n(300, 6000))
     guard(res, "C13", odd_default_stream, ctx, res)
     guard(res, "C13", rejection_rendering_stream, ctx, res)
+    guard(res, "C13", include_sharing_stream, ctx, res)
     replies = ctx.model(reqs)
     if replies is not None:
         for (case, trace), r in zip(pend, replies):
